@@ -361,7 +361,106 @@ let run_svec = function
     String.concat " " strs ^ Printf.sprintf " | created=%d leaked=%s double=%s" created (String.concat "," !leaked) (String.concat "," !dbl)
   | _ -> "ERR bad svec line"
 
-let handlers : (string * (string list -> string)) list ref = ref [ ("cell", run_cell); ("bf", run_bf); ("inplace", run_inplace); ("ir", run_ir); ("bc", run_bc); ("parse", run_parse); ("bfbig", run_bfbig); ("svec", run_svec); ("tape", run_tape); ("bfcycle", run_bfcycle); ("irbig", run_irbig) ]
+
+(* expr|w|prog|envs : same grammar and output as harness/src/expr.rs *)
+let parts_text (e : expr) : string =
+  if e = [] then "0" else
+    String.concat "+" (List.map (fun (c, vs) -> sz c ^ ":" ^ String.concat "," (List.map sz vs)) e)
+
+let run_expr = function
+  | [w; prog; envs_s] ->
+    let w = zs w in
+    let m = Model.Z.pow (z_of_int 2) w in
+    let envs = List.map (fun e -> Array.of_list (List.map (fun x -> Model.Z.modulo (zs x) m) (split_on ',' e))) (split_on '/' envs_s) in
+    let get env (v : z) : z = let i = ((int_of_z v + 3) mod 7 + 7) mod 7 in env.(i) in
+    let vals_text e = String.concat "," (List.map (fun env -> sz (eval w e (get env))) envs) in
+    let full e = "E" ^ parts_text e ^ "@" ^ vals_text e in
+    let opt_expr = function Some e -> full e | None -> "none" in
+    let regs = Array.make 8 ([] : expr) in
+    let parse_map s = List.filter_map (fun kv -> if kv = "" then None else
+                                          match split_on '=' kv with [k; v] -> Some (zs k, int_of_string v) | _ -> failwith "bad map") (split_on ',' s) in
+    let out = List.filter_map (fun op ->
+        if op = "" then None else
+          let f = Array.of_list (split_on ':' op) in
+          let r i = int_of_string f.(i) in
+          let iv i = zs f.(i) in
+          let fld i = if i < Array.length f then f.(i) else "" in
+          Some (match f.(0) with
+              | "val" -> regs.(r 1) <- e_val (Model.Z.modulo (zs f.(2)) m); full regs.(r 1)
+              | "var" -> regs.(r 1) <- e_var (iv 2); full regs.(r 1)
+              | "add" -> regs.(r 1) <- e_add w regs.(r 2) regs.(r 3); full regs.(r 1)
+              | "mul" -> regs.(r 1) <- e_mul w regs.(r 2) regs.(r 3); full regs.(r 1)
+              | "neg" -> regs.(r 1) <- e_neg w regs.(r 2); full regs.(r 1)
+              | "half" -> (match e_half w regs.(r 2) with Some e -> regs.(r 1) <- e; full e | None -> "none")
+              | "norm" -> regs.(r 1) <- e_normalize w regs.(r 2); full regs.(r 1)
+              | "sym" ->
+                let map = parse_map (fld 4) in
+                let idmode = f.(3) = "id" in
+                let func v = match List.find_opt (fun (k, _) -> to_z k = to_z v) map with
+                  | Some (_, k) -> Some regs.(k)
+                  | None -> if idmode then Some (e_var v) else None in
+                (match e_symb_evaluate w regs.(r 2) func with Some e -> regs.(r 1) <- e; full e | None -> "none")
+              | "const" -> opt sz (e_constant regs.(r 1))
+              | "incof" -> opt_expr (e_inc_of regs.(r 1) (iv 2))
+              | "pincof" -> (match e_prod_inc_of regs.(r 1) (iv 2) with Some (e, mu) -> full e ^ "*" ^ sz mu | None -> "none")
+              | "cincof" -> opt sz (e_const_inc_of regs.(r 1) (iv 2))
+              | "prodof" -> opt_expr (e_prod_of regs.(r 1) (iv 2))
+              | "cpart" -> sz (e_constant_part regs.(r 1))
+              | "ident" -> opt sz (e_identity regs.(r 1))
+              | "opc" -> string_of_int (int_of_nat (e_op_count w regs.(r 1)))
+              | "addc" -> string_of_int (int_of_nat (e_add_count regs.(r 1)))
+              | "zero" -> if e_is_zero regs.(r 1) then "1" else "0"
+              | "vars" -> String.concat "," (List.map sz (e_variables regs.(r 1)))
+              | "split" ->
+                let constant = List.filter_map (fun c -> if c = "" then None else Some (zs c)) (split_on ',' f.(2)) in
+                let linear = List.map (fun (v, k) -> (v, regs.(k))) (parse_map (fld 3)) in
+                (match e_split_along w regs.(r 1) constant linear with
+                 | Some ((c, o), l) ->
+                   full c ^ "|" ^ full o ^ "|" ^ String.concat "&" (List.map (fun (a, b) -> full a ^ "~" ^ full b) l)
+                 | None -> "none")
+              | k -> "ERR op " ^ k)) (split_on ';' prog) in
+    String.concat " ; " out
+  | _ -> "ERR bad expr line"
+
+
+(* bfx|w|maxsteps|src-hex|env : canonical run reporting the pointer excursion
+   -> <outcome> <fin> <minptr> <maxptr> <steps> <trace> *)
+let run_bfx = function
+  | [w; maxsteps; src; env] ->
+    let w = zs w and e = env_of env and maxsteps = int_of_string maxsteps in
+    (match ast_of_source (bytes_of_hex src) with
+     | None -> "unbalanced"
+     | Some p ->
+       let c = ref { c_ctl = p; c_kont = []; c_st = bf0 } in
+       let mn = ref 0 and mx = ref 0 and steps = ref 0 in
+       let result = ref None in
+       while !result = None do
+         if !steps >= maxsteps then result := Some (OutOfFuel !c.c_st)
+         else (match bf_step w e !c with
+             | Final o -> result := Some o
+             | Next c' ->
+               c := c'; incr steps;
+               let p = int_of_z c'.c_st.ptr in
+               if p < !mn then mn := p; if p > !mx then mx := p)
+       done;
+       (match !result with
+        | Some o ->
+          let tag = match o with Done _ -> "done" | Stopped _ -> "stopped" | OutOfFuel _ -> "fuel" | _ -> "other" in
+          Printf.sprintf "%s 1 %d %d %d %s" tag !mn !mx !steps (trace_s (outcome_state o).io)
+        | None -> "ERR"))
+  | _ -> "ERR bad bfx line"
+
+
+(* bcwf|regs|fuse|bc-text -> ok | reject <rule> *)
+let run_bcwf = function
+  | [regs; fuse; bc] ->
+    let p = parse_bc (toks_of bc) in
+    let r = bc_wf_why (zs regs) (fuse = "1") p in
+    let ok = bc_wf (zs regs) (fuse = "1") p in
+    if ok && int_of_z r = 0 then "ok" else if ok || int_of_z r = 0 then "ERR inconsistent" else "reject " ^ sz r
+  | _ -> "ERR bad bcwf line"
+
+let handlers : (string * (string list -> string)) list ref = ref [ ("cell", run_cell); ("bf", run_bf); ("inplace", run_inplace); ("ir", run_ir); ("bc", run_bc); ("parse", run_parse); ("bfbig", run_bfbig); ("bcwf", run_bcwf); ("bfx", run_bfx); ("expr", run_expr); ("svec", run_svec); ("tape", run_tape); ("bfcycle", run_bfcycle); ("irbig", run_irbig) ]
 
 let () =
   (try
